@@ -323,10 +323,10 @@ def check_beam(case, rec):
 
 
 SUBS = [
-    Sub("elastic2d", check_elastic, gen=lambda: elastic_cases(2), quick=50, thorough=600, shards=6),
-    Sub("elastic3d", check_elastic, gen=lambda: elastic_cases(3), quick=20, thorough=250, shards=6),
-    Sub("thermal", check_thermal, gen=thermal_cases, quick=50, thorough=500, shards=4),
-    Sub("beam", check_beam, gen=beam_cases, quick=60, thorough=800, shards=4),
+    Sub("elastic2d", check_elastic, gen=lambda: elastic_cases(2), quick=120, thorough=600, shards=6),
+    Sub("elastic3d", check_elastic, gen=lambda: elastic_cases(3), quick=40, thorough=250, shards=6),
+    Sub("thermal", check_thermal, gen=thermal_cases, quick=100, thorough=500, shards=4),
+    Sub("beam", check_beam, gen=beam_cases, quick=120, thorough=800, shards=4),
 ]
 
 
@@ -406,4 +406,4 @@ def check_hyper(case, rec):
     rec.nontrivial(nontrivial_iso(iso) and any(abs(v) > 0 for k in ("ud", "trac", "body") for v in case[k]))
 
 
-SUBS.append(Sub("hyperelastic", check_hyper, gen=hyper_cases, quick=40, thorough=400, shards=6))
+SUBS.append(Sub("hyperelastic", check_hyper, gen=hyper_cases, quick=60, thorough=400, shards=6))
